@@ -380,6 +380,29 @@ class BaseClientHandler:
         """
         return any("EXPUNGE" in x for x in self.pending_notifications)
 
+    ####################################################################
+    #
+    async def expunges_while_waiting(self, cmd: IMAPClientCommand) -> None:
+        """
+        A command had to wait for its turn on the mailbox. If messages were
+        expunged by other clients in the meantime then:
+
+        - for a UID command we tell the client about the EXPUNGEs now, before
+          any of the command's responses (which use the new message sequence
+          numbers) are sent.
+
+        - for a command that uses message sequence numbers the numbers the
+          client sent no longer name the messages the client meant (and we
+          are not allowed to send EXPUNGEs during a FETCH, STORE or SEARCH),
+          so the command is refused. The client will get the EXPUNGEs with
+          its next command.
+        """
+        if self.pending_expunges():
+            if cmd.uid_command:
+                await self.send_pending_notifications()
+            else:
+                raise No("There are pending EXPUNGEs.")
+
     ##################################################################
     #
     async def send_pending_notifications(self) -> None:
@@ -1385,6 +1408,7 @@ class Authenticated(BaseClientHandler):
                 raise No("There are pending untagged responses")
 
         async with cmd.ready_and_okay(self.mbox):
+            await self.expunges_while_waiting(cmd)
             try:
                 results = await self.mbox.search(
                     cmd.search_key, cmd.uid_command, cmd.timeout_cm
@@ -1448,6 +1472,7 @@ class Authenticated(BaseClientHandler):
         self.fetch_while_pending_count = 0
         try:
             async with cmd.ready_and_okay(self.mbox):
+                await self.expunges_while_waiting(cmd)
                 msg_set = (
                     sorted(cmd.msg_set_as_set) if cmd.msg_set_as_set else []
                 )
@@ -1544,6 +1569,7 @@ class Authenticated(BaseClientHandler):
         #
         try:
             async with cmd.ready_and_okay(self.mbox):
+                await self.expunges_while_waiting(cmd)
                 msg_set = (
                     sorted(cmd.msg_set_as_set) if cmd.msg_set_as_set else []
                 )
@@ -1602,6 +1628,7 @@ class Authenticated(BaseClientHandler):
         # Wait until the mailbox gives us the go-ahead to run the command.
         #
         async with cmd.ready_and_okay(self.mbox):
+            await self.expunges_while_waiting(cmd)
             try:
                 dest_mbox = await self.server.get_mailbox(cmd.mailbox_name)
                 src_uids, dst_uids = await self.mbox.copy(
@@ -1671,6 +1698,7 @@ class Authenticated(BaseClientHandler):
         # of mailboxes in opposite directions.
         #
         async with cmd.ready_and_okay(self.mbox):
+            await self.expunges_while_waiting(cmd)
             try:
                 dest_mbox = await self.server.get_mailbox(cmd.mailbox_name)
                 src_uids, dst_uids = await self.mbox.copy(
